@@ -273,6 +273,35 @@ def _list_items(nf):
     return [("star", src, val) if not conds else ("star", src, val, "conditional", tuple(c for c, _b in conds))]
 
 
+def _opt_view(nf):
+    """(condition, value) of an Option-valued normal form: the value it holds when it is Some, and when that is; None if unknown"""
+    if not isinstance(nf, tuple):
+        return None
+    if nf[0] == "call" and nf[1] == "Some" and len(nf[2]) == 1:
+        return True, nf[2][0]
+    if nf[0] == "map":
+        return ("islet", "Some(_)", nf[1]), nf[2]
+    if nf[0] == "ifelse":
+        a, b = _opt_view(nf[2]), nf[3]
+        if a is not None and a[0] is True and isinstance(b, tuple) and b[0] == "const" and str(b[1]).endswith("None"):
+            return nf[1], a[1]
+        return None
+    if nf[0] in ("field", "param", "payload", "elem"):
+        return ("islet", "Some(_)", nf), ("payload", "Some", nf)
+    return None
+
+
+def _items_of(expr, nf):
+    """list-builder items of one side of a `chain`: an Option (or its `into_iter()`) is zero or one item"""
+    x = H.strip(expr)
+    ty = (x.get("adj_ty") or "") + " " + (x.get("ty") or "")
+    if "option::Option<" in ty or "option::IntoIter<" in ty:
+        ov = _opt_view(nf)
+        if ov is not None:
+            return [("item", ov[1])] if ov[0] is True else [("opt", ov[0], ov[1])]
+    return _list_items(nf)
+
+
 def iter_view(it):
     """(source, element value, conditions): an iterator chain `src.filter(p).map(f).filter_map(g)` read as a loop over `src` whose
     body sees `element value` when all `conditions` [(cond_nf, True)] hold. Adaptors that change which elements are visited in a
@@ -1004,8 +1033,12 @@ class NF:
         if name in IDENTITY_METHODS and not args:
             return recv
         if name == "chain" and len(args) == 1 and "Iterator" in (e.get("path") or ""):
-            # `a.chain(b)`: the elements of a, then those of b
-            return ("list", tuple(_list_items(recv)) + tuple(_list_items(self.nf(args[0], env))))
+            # `a.chain(b)`: the elements of a, then those of b (an Option on either side is zero or one element)
+            return ("list", tuple(_items_of(e["recv"], recv)) + tuple(_items_of(args[0], self.nf(args[0], env))))
+        if name == "then" and len(args) == 1 and "bool" in (e.get("path") or "") + (H.strip(e["recv"]).get("ty") or ""):
+            return ("ifelse", recv, ("call", "Some", (self.closure_apply(args[0], [], env),)), ("const", "std::option::Option::None"))
+        if name == "then_some" and len(args) == 1 and "bool" in (e.get("path") or "") + (H.strip(e["recv"]).get("ty") or ""):
+            return ("ifelse", recv, ("call", "Some", (self.nf(args[0], env),)), ("const", "std::option::Option::None"))
         if name in ("map", "and_then", "is_some_and", "is_ok_and", "map_or", "map_or_else", "filter", "inspect", "find", "any",
                     "position", "filter_map", "unwrap_or_else", "ok_or_else", "for_each", "flat_map", "all", "find_map", "take_while",
                     "skip_while"):
@@ -2009,9 +2042,10 @@ class CallExpander:
         return None
 
     def display_summary(self, ty):
-        """The text that `Display::fmt` of a struct of the crate writes, as a normal form over ("param", "self"): straight `write!`s
-        into the formatter and loops with a separator (`sep = ""; for x in &self.0 { write!(f, "{sep}{x}")?; sep = ", "; }`, or
-        `if i > 0`). None for anything else (enums that match on self, formatter flags, early returns)."""
+        """The text that `Display::fmt` of a type of the crate writes, as a normal form over ("param", "self"): `write!`s into the
+        formatter in sequence, chosen by `match` / `if` (a choice of texts), loops with a separator
+        (`sep = ""; for x in &self.0 { write!(f, "{sep}{x}")?; sep = ", "; }`). None for anything else (formatter flags, early
+        returns, helper calls that take the formatter)."""
         base = re.sub(r"<.*$", "", (ty or "").replace("&", "").replace("mut ", "").strip())
         if not base or "::" not in base or base.startswith(("std::", "core::", "alloc::")):
             return None
@@ -2034,6 +2068,9 @@ class CallExpander:
             env.m[i] = ("param", "self")
         fids = {i for i, _nm in H.pat_bindings(nb["params"][1])}
 
+        class No(Exception):
+            pass
+
         def is_f(x):
             x = H.strip(x)
             while x.get("k") == "AddrOf" or (x.get("k") == "Unary" and x.get("op") == "Deref"):
@@ -2041,60 +2078,83 @@ class CallExpander:
             return x.get("k") == "Path" and x.get("res") == "local" and x.get("id") in fids
         seps = {}      # local id -> its literal text before the first iteration
 
-        def write_parts(x, en):
-            """parts written by the statement x into the formatter, or None"""
-            x = H.strip(x)
-            while x.get("k") == "Try":
-                x = H.strip(x["e"])
-            if x.get("k") == "MethodCall" and x["name"] == "write_fmt" and is_f(x["recv"]):
-                return list(N.format_nf(x["args"][0], en)[1])
-            if x.get("k") == "MethodCall" and x["name"] == "write_str" and is_f(x["recv"]) and len(x["args"]) == 1:
-                v = N.nf(x["args"][0], en)
-                return [("lit", v[1])] if v[0] == "lit" and isinstance(v[1], str) else [("hole", v, "display", "&str")]
-            return None
-
         def stmts_of(block):
             b = block["b"]
             return list(b["stmts"]) + ([{"k": "Expr", "e": b["tail"]}] if b.get("tail") else [])
-        top = H.strip(nb["value"])
-        if top.get("k") != "Block":
-            return None
-        parts = []
-        for st in stmts_of(top):
-            k = st.get("k")
-            if k == "Let":
-                init = H.strip(st["init"]) if st.get("init") else None
-                if st["pat"].get("k") == "Binding" and init is not None and init.get("k") == "Lit" and init.get("lit") == "str":
-                    seps[st["pat"]["id"]] = init["v"]
-                    env.m[st["pat"]["id"]] = ("sepvar", st["pat"]["id"])
+
+        def resolve_seps(parts):
+            out = []
+            for q in parts:
+                if q[0] == "hole" and isinstance(q[1], tuple) and q[1][0] == "sepvar":
+                    out.append(("lit", seps.get(q[1][1], "")))
                 else:
-                    N.bind_let(st, env)
-                continue
-            if k not in ("Semi", "Expr"):
-                return None
-            x = H.strip(st["e"])
-            if x.get("k") == "Call" and (H.callee_path(x) or "").rsplit("::", 1)[-1] == "Ok":
-                continue    # the final Ok(())
-            wp = write_parts(x, env)
-            if wp is not None:
-                for q in wp:
-                    if q[0] == "hole" and isinstance(q[1], tuple) and q[1][0] == "sepvar":
-                        parts.append(("lit", seps.get(q[1][1], "")))
-                    else:
-                        parts.append(q)
-                continue
+                    out.append(q)
+            return out
+
+        def as_nf(parts):
+            merged = []
+            for q in parts:
+                if q[0] == "lit" and merged and merged[-1][0] == "lit":
+                    merged[-1] = ("lit", merged[-1][1] + q[1])
+                else:
+                    merged.append(q)
+            if len(merged) == 1 and merged[0][0] == "hole":
+                return merged[0][1]
+            if len(merged) == 1 and merged[0][0] == "lit":
+                return ("lit", merged[0][1])
+            return ("format", tuple(merged))
+
+        def as_parts(nf):
+            if nf[0] == "format":
+                return list(nf[1])
+            if nf[0] == "lit" and isinstance(nf[1], str):
+                return [("lit", nf[1])]
+            return [("hole", nf, "display", "?")]
+
+        def text(x, en):
+            """parts written by the expression / statement x into the formatter"""
+            x = H.strip(x)
             while x.get("k") == "Try":
                 x = H.strip(x["e"])
-            if x.get("k") == "For":
-                it = N.nf(x["iter"], env)
+            k = x.get("k")
+            if k == "MethodCall" and x["name"] == "write_fmt" and is_f(x["recv"]):
+                return list(N.format_nf(x["args"][0], en)[1])
+            if k == "MethodCall" and x["name"] == "write_str" and is_f(x["recv"]) and len(x["args"]) == 1:
+                return as_parts(N.nf(x["args"][0], en))
+            if k == "Call" and (H.callee_path(x) or "").rsplit("::", 1)[-1] == "Ok" and not any(is_f(y) for y in H.exprs(x)):
+                return []
+            if k == "Block":
+                return block(x, en)
+            if k == "Match":
+                scrut = N.nf(x["scrut"], en)
+                arms = []
+                for a in x["arms"]:
+                    if a.get("guard"):
+                        raise No()
+                    env_a = en.child()
+                    bind_pattern(a["pat"], scrut, env_a)
+                    arms.append((pat_label(a["pat"]), as_nf(text(a["body"], env_a))))
+                return [("hole", ("match", scrut, tuple(arms)), "display", "?")]
+            if k == "If" and x.get("else"):
+                c = H.strip(x["cond"])
+                env_t = en.child()
+                if c.get("k") == "LetExpr":
+                    base_ = N.nf(c["init"], en)
+                    bind_pattern(c["pat"], base_, env_t)
+                    cond = ("islet", pat_label(c["pat"]), base_)
+                else:
+                    cond = N.nf(c, en)
+                return [("hole", ("ifelse", cond, as_nf(text(x["then"], env_t)), as_nf(text(x["else"], en))), "display", "?")]
+            if k == "For":
+                it = N.nf(x["iter"], en)
                 src, val, conds = iter_view(it)
                 if conds:
-                    return None
-                env3 = env.child()
+                    raise No()
+                env3 = en.child()
                 bind_pattern(x["pat"], val, env3)
                 body = H.strip(x["body"])
                 if body.get("k") != "Block":
-                    return None
+                    raise No()
                 pieces, sep, sep_id = [], "", None
                 for y in stmts_of(body):
                     if y.get("k") == "Let":
@@ -2102,38 +2162,52 @@ class CallExpander:
                         continue
                     ye = H.strip(y.get("e")) if y.get("k") in ("Semi", "Expr") else None
                     if ye is None:
-                        return None
+                        raise No()
                     if ye.get("k") == "Assign":
                         tgt, val_ = H.strip(ye["a"]), H.strip(ye["b"])
                         if tgt.get("k") == "Path" and tgt.get("id") in seps and val_.get("k") == "Lit" and val_.get("lit") == "str" and seps[tgt["id"]] == "":
                             sep, sep_id = val_["v"], tgt["id"]
                             continue
-                        return None
-                    wp = write_parts(ye, env3)
-                    if wp is None:
-                        return None
-                    pieces += wp
-                # the separator variable, if any, is the first thing each iteration writes
+                        raise No()
+                    pieces += text(ye, env3)
                 if pieces and pieces[0][0] == "hole" and isinstance(pieces[0][1], tuple) and pieces[0][1][0] == "sepvar":
                     if pieces[0][1][1] != sep_id:
-                        return None
+                        raise No()
                     pieces = pieces[1:]
                 elif sep_id is not None:
-                    return None
+                    raise No()
                 if any(q[0] == "hole" and isinstance(q[1], tuple) and q[1][0] == "sepvar" for q in pieces):
-                    return None
-                body_nf = ("format", tuple(pieces)) if not (len(pieces) == 1 and pieces[0][0] == "hole") else pieces[0][1]
-                parts.append(("hole", ("joinmap", src, body_nf, sep), "display", "?"))
-                continue
+                    raise No()
+                return [("hole", ("joinmap", src, as_nf(pieces), sep), "display", "?")]
+            raise No()
+
+        def block(x, en):
+            en2 = en.child()
+            parts = []
+            for st in stmts_of(x):
+                k = st.get("k")
+                if k == "Let":
+                    init = H.strip(st["init"]) if st.get("init") else None
+                    if st["pat"].get("k") == "Binding" and init is not None and init.get("k") == "Lit" and init.get("lit") == "str" and "Mut" in st["pat"].get("mode", ""):
+                        seps[st["pat"]["id"]] = init["v"]
+                        en2.m[st["pat"]["id"]] = ("sepvar", st["pat"]["id"])
+                    else:
+                        if init is not None and any(is_f(y) for y in H.exprs(init)):
+                            raise No()
+                        N.bind_let(st, en2)
+                    continue
+                if k == "Item":
+                    continue
+                if k not in ("Semi", "Expr"):
+                    raise No()
+                parts += resolve_seps(text(st["e"], en2))
+            return parts
+        top = H.strip(nb["value"])
+        try:
+            v = as_nf(block(top, env) if top.get("k") == "Block" else text(top, env))
+        except (No, Unrecognised):
             return None
-        merged = []
-        for q in parts:
-            if q[0] == "lit" and merged and merged[-1][0] == "lit":
-                merged[-1] = ("lit", merged[-1][1] + q[1])
-            else:
-                merged.append(q)
-        v = ("format", tuple(merged)) if not (len(merged) == 1 and merged[0][0] == "hole") else merged[0][1]
-        if any(r[0] in ("unknown", "local") for r in nf_roots(v)):
+        if any(r[0] in ("unknown", "local") for r in nf_roots(v)) or "sepvar" in str(v):
             return None
         self.cache[key] = v
         return v
@@ -2298,6 +2372,15 @@ def canon_parts(parts, CE, limit=24):
     return out
 
 
+def _joined_list(e):
+    """(items, separator) when the value is a list of texts joined with a literal separator: `list.join(", ")`"""
+    if isinstance(e, tuple) and e[0] == "call" and str(e[1]).rsplit("::", 1)[-1] in ("join", "concat") and e[2] and isinstance(e[2][0], tuple) and e[2][0][0] == "list":
+        sep = e[2][1] if len(e[2]) > 1 else ("lit", "")
+        if isinstance(sep, tuple) and sep[0] == "lit" and isinstance(sep[1], str):
+            return list(e[2][0][1]), sep[1]
+    return None
+
+
 def _canon_hole(p, CE, limit):
     nf, tr = p[1], p[2]
     ty = p[3] if len(p) > 3 else "?"
@@ -2306,12 +2389,42 @@ def _canon_hole(p, CE, limit):
     e = CE.expand(nf) if CE is not None else nf
     if CE is not None and ty and "::" in ty:
         # a value of a struct of the crate shown with its own Display: what that Display writes, with the value for `self`
-        ds = CE.display_summary(ty)
+        base_ty = re.sub(r"<.*$", "", ty.replace("&", "").replace("mut ", "").strip())
+        is_struct = any(st_["path"] == base_ty for st_ in CE.F.lib.items.get("structs", []))
+        # (an enum shown with its Display stays a hole of that type: the rules about type positions name it)
+        ds = CE.display_summary(ty) if is_struct else None
         if ds is not None:
             shown = nf_simplify(CE.expand(nf_subst(ds, {"self": e})))
             if shown != e:
                 return _canon_hole(("hole", shown, tr, "?"), CE, limit)
     k = e[0]
+    jl = _joined_list(e)
+    if jl is not None:
+        items, sep = jl
+        opts = [i for i, it in enumerate(items) if it[0] == "opt"]
+        if len(opts) <= 4 and all(it[0] in ("item", "opt") for it in items):
+            # `[a?, b, c?].join(", ")`: one text per combination of the optional items
+            out = []
+            import itertools as _it
+            for choice in _it.product([True, False], repeat=len(opts)):
+                present = dict(zip(opts, choice))
+                seq, extra = [], ()
+                for i, it in enumerate(items):
+                    if it[0] == "opt":
+                        extra += (("alt", it[1], present[i]),)
+                        if not present[i]:
+                            continue
+                        seq.append(it[2])
+                    else:
+                        seq.append(it[1])
+                parts = []
+                for j, v in enumerate(seq):
+                    if j:
+                        parts.append(("lit", sep))
+                    parts.append(("hole", v, "display", "?"))
+                for sp, sc in (canon_parts(parts, CE, limit) if parts else [([("lit", "")], ())]):
+                    out.append((sp, extra + sc))
+            return out[:max(limit, 16)]
     if k == "lit" and isinstance(e[1], str):
         return [([("lit", e[1])], ())]
     if k == "const" and CE is not None:
